@@ -90,16 +90,29 @@ Qed.
 
 (** ---- atom names (set_atom_names_atomistic as repaired in /repo 8dbd471 + e15e5bd: an atom shared through the squash operator
     is named once, later indices step over taken names, names of shared atoms are kept apart over the whole molecule) *)
+(** names_unique_per_coarse_node (UNCONDITIONAL for the repaired function): the names of each coarse node's atoms, read from the
+    returned fine graph, are pairwise distinct - for every fine graph and coarse node lists in which a coarse node lists its
+    atoms once, the element strings contain no digit, and an atom that occurs in two coarse nodes has more than one fragid entry
+    ([shared_ok]; this is how annotate_fragments builds the coarse graphs: an atom is in the graph of every coarse node its
+    fragid lists) *)
+Theorem C12_names_unique_per_coarse_node : forall (E : list pystr), Forall digit_free E ->
+  forall mol meta fgs mol' fgs', set_atom_names mol meta fgs = Ok (mol', fgs') ->
+  (forall g, In g (fraglist_of meta fgs) -> NoDup (snd g)) -> elemsE E mol ->
+  shared_ok (fun k => node_get mol k (S "fragid")) [] (fraglist_of meta fgs) ->
+  forall g, In g (fraglist_of meta fgs) -> NoDup (map (name_in mol') (snd g)).
+Proof. intros E HE. exact (names_unique_per_coarse_node E (label_inj_list E HE)). Qed.
 (** element ++ str(index) determines element and index when the element has no digit *)
 Theorem C12_label_injective : forall e e' i j, digit_free e -> digit_free e' -> 0 <= i -> 0 <= j ->
   atom_label e i = atom_label e' j -> e = e' /\ i = j.
 Proof. exact label_inj. Qed.
-(** the pure form of one pass: the names given to one coarse node are pairwise distinct and new names avoid the taken ones *)
+(** the pure form of one pass over a coarse node: values are pairwise distinct; an already-named atom keeps its name; a new name
+    is element ++ str(i) with i not below the running index, not among the names taken in this coarse node and - for an atom
+    of several fragments - not among the names of such atoms anywhere; the new names of such atoms join that set *)
 Theorem C12_assign_unique : forall (E : list pystr),
   (forall e e' i j, In e E -> In e' E -> 0 <= i -> 0 <= j -> atom_label e i = atom_label e' j -> i = j) ->
-  forall used ds idx vs, 0 <= idx -> incl (news ds) E -> incl (olds ds) used -> NoDup (olds ds) -> assign used idx ds = Ok vs ->
-  NoDup vs /\ length vs = length ds /\
-  forall v, In v vs -> In v (olds ds) \/ exists e i, In e E /\ idx <= i /\ v = VStr (atom_label e i) /\ ~ In v used.
+  forall used ds shn idx vs shn', 0 <= idx -> incl (news ds) E -> incl (olds ds) used -> NoDup (olds ds) ->
+  assign used shn idx ds = Ok (vs, shn') ->
+  NoDup vs /\ Forall2 (good E used shn idx) ds vs /\ (forall x, In x shn' <-> In x shn \/ In x (shared_news ds vs)).
 Proof. exact assign_spec. Qed.
 
 (** witnesses: atoms as (key, element, fragid list); coarse graphs as node lists *)
@@ -123,6 +136,21 @@ Example C12_two_owners_named_apart :
               [(0, cgraph [0; 1]); (1, cgraph [2; 3]); (2, cgraph [1; 3])]
   = Ok ([Some (VStr (S "C0")); Some (VStr (S "C1")); Some (VStr (S "C0")); Some (VStr (S "C2"))], true).
 Proof. vm_compute. reflexivity. Qed.
+
+(** non-vacuity: the hypotheses of C12_names_unique_per_coarse_node hold on the two-owner witness *)
+Example C12_names_unique_nonvacuous :
+  let mol := [atom 0 "C" [0]; atom 1 "C" [0; 2]; atom 2 "C" [1]; atom 3 "C" [1; 2]] in
+  let fgs := [(0, cgraph [0; 1]); (1, cgraph [2; 3]); (2, cgraph [1; 3])] in
+  Forall digit_free [S "C"] /\ elemsE [S "C"] mol /\
+  (forall g, In g (fraglist_of (cmeta [0; 1; 2]) fgs) -> NoDup (snd g)) /\
+  shared_ok (fun k => node_get mol k (S "fragid")) [] (fraglist_of (cmeta [0; 1; 2]) fgs).
+Proof.
+  cbv zeta. split; [repeat constructor|]. split.
+  - apply elems_in_sound. reflexivity.
+  - split.
+    + intros g Hg. cbn in Hg. repeat (destruct Hg as [<-|Hg]; [cbn; repeat constructor; cbn; intuition discriminate|]). contradiction.
+    + cbn. repeat split; intros n Hin Hseen; cbn in Hin, Hseen; intuition (subst; try discriminate; try reflexivity).
+Qed.
 
 (** ---- input-only dependence *)
 (** frag_order_irrelevant: the order of the definitions in a fragment block with unique names is immaterial
@@ -169,6 +197,7 @@ Theorem C12_resolve_all_is_driver_instance : forall trs st, inv trs st -> st_cou
   end.
 Proof. exact resolve_all_is_instance. Qed.
 
+Print Assumptions C12_names_unique_per_coarse_node.
 Print Assumptions C12_label_injective.
 Print Assumptions C12_sort_keys.
 Print Assumptions C12_sort_sorted.
